@@ -587,13 +587,17 @@ func (e *Engine) runPath(h *Harness, prefix []int, solver *Solver, concModel Mod
 		reached: map[string]bool{}, funcsSeen: map[*ssa.Function]bool{}, opaqueSeen: map[string]int{},
 		ghost: map[string]Value{}, errStrs: map[string]*Value{}, concModel: concModel, nameCount: map[string]int{},
 		locks: map[*Value]int{}, lockOwner: map[*Value]int{}, onceDone: map[*Value]bool{}, wgCount: map[*Value]int{},
-		syncMaps: map[*Value]*MapV{}, atomicVals: map[*Value]Value{}}
+		syncMaps: map[*Value]*MapV{}, atomicVals: map[*Value]Value{}, onceRunning: map[*Value]bool{}}
 	if concModel == nil {
 		solver.Reset()
 	}
 	out = &PathOutcome{}
 	defer func() {
-		if r := recover(); r != nil {
+		r := recover()
+		if p.sched != nil && !p.sched.finished {
+			p.sched.finish(p)
+		}
+		if r != nil {
 			switch r := r.(type) {
 			case pathAbort:
 				out.Abort = &r
@@ -630,9 +634,6 @@ func (e *Engine) runPath(h *Harness, prefix []int, solver *Solver, concModel Mod
 		}
 	}()
 	p.callSSA(nil, token.NoPos, h.Fn, nil, nil)
-	if p.sched != nil {
-		p.sched.finish(p)
-	}
 	return out
 }
 
